@@ -60,15 +60,39 @@ Variable orders : ty -> option (list node).
 (* true = unmarshal side, false = marshal side *)
 Variable dir : bool.
 
-(* inspection.unwrap.  Named objects of the environment are classes here: a TypeAliasType object is
-   written structurally as TAlias i <value> (string-valued: TAliasStr). *)
-Fixpoint unwrap (t : ty) : ty :=
+(* inspection.unwrap, the part that needs no environment: qualifiers, NewTypes and alias objects that are written
+   structurally (TAlias i <value>; string-valued: TAliasStr i c, whose value is the text naming c). *)
+Fixpoint unwrap_s (t : ty) : ty :=
   match t with
-  | TFinal t' | TClassVar t' | TAlias _ t' | TNewType _ t' => unwrap t'
+  | TFinal t' | TClassVar t' | TAlias _ t' | TNewType _ t' => unwrap_s t'
   | TAliasStr _ c => TRef c
   | _ => t
   end.
 Definition is_ref (t : ty) : bool := match t with TRef _ | TRefLeaf _ | TRefTo _ => true | _ => false end.
+(* inspection.unwrap.  A NAMED object of the environment may be an alias object (E n = NType v: `type N = ...`,
+   `N = TypeAliasType("N", ...)`), possibly recursive.  `istypealiastype(t)`: its value is looked at --
+     * a string-valued alias (v is a reference: the text, or for a compound text TRefTo <what the text evaluates to>)
+       unwraps to `refs.forwardref(tv, module=t.__module__)`, i.e. to that reference, and unwrapping STOPS there:
+       nothing of the body is looked at (this is what keeps a recursive string alias finite: its graph node is
+       dispatched to a Delayed* proxy, resolved through the public factory at call time);
+     * any other value is peeled and the loop goes on (`t = tv; continue`).
+   The loop `while lt is not t` of the code does not terminate on a cycle of value aliases (`type A = B; type B = A`);
+   the model follows at most alias_hops alias objects (unwrap_o = None beyond) and then leaves the annotation at the
+   name of the first alias object, for which no routine can be constructed (construct: EOther) -- so such
+   environments are outside every theorem through order_ok. *)
+Definition alias_hops : nat := 16.
+Fixpoint unwrap_o (h : nat) (t : ty) : option ty :=
+  match unwrap_s t with
+  | TName n =>
+      match E n with
+      | Some (NType v) =>
+          if is_ref v then Some v
+          else match h with 0 => None | S h' => unwrap_o h' v end
+      | _ => Some (TName n)
+      end
+  | u => Some u
+  end.
+Definition unwrap (t : ty) : ty := match unwrap_o alias_hops t with Some u => u | None => unwrap_s t end.
 (* refs.forwardref(annotation): only named objects have a reference that can be found *)
 Definition fref (t : ty) : option ty :=
   match t with TName c => Some (TRef c) | TLeaf s => Some (TRefLeaf s)
@@ -118,7 +142,7 @@ Definition construct (cx : ctx) (u : ty) : res routine :=
                  | Some r => r
                  | None => match ctx_get cx (evaluate (fty fd)) with Some r => r | None => RNoOp end
                  end)) (cfields cd)))
-      | _ => Raise EOther
+      | _ => Raise EOther      (* an alias object never reaches a constructor either: unwrap goes through it *)
       end
   | _ => Raise EOther        (* wrappers never reach a constructor: dispatch is on the unwrapped annotation *)
   end.
